@@ -18,6 +18,8 @@ def gen_values(rng, n, kind):
         return sorted(pool) if rng.random() < 0.5 else pool
     if kind == "float":
         return [round(x * 0.5 + 0.25, 2) for x in rng.sample(range(0, 60), n)]
+    if kind == "tiny":           # distinct floats that are closer together than any absolute tolerance (noise powers, delays)
+        return [x * 1e-9 for x in rng.sample(range(1, 40), n)]
     return rng.sample(["a", "b", "qpsk", "x1", "zf", "mmse", "u"], n)
 
 
@@ -29,7 +31,7 @@ def gen_config(rng, max_vars, rep_choices, allow_none_name=False):
         prod = 1
         for nm in names:
             ln = rng.choice([1, 2, 2, 3, 3, 4])
-            kind = rng.choice(["int", "float", "str"])
+            kind = rng.choice(["int", "int", "float", "float", "str", "str", "tiny"])
             unpacked[nm] = {"values": gen_values(rng, ln, kind), "array": kind != "str" and rng.random() < 0.5}
             prod *= ln
         if prod <= max_vars:
